@@ -315,7 +315,9 @@ def run_shard(item):
                 one(q, c, None, None, out, tag)
     elif kind == "opvars":
         docs = ["{ a }", "query A { a } query B { nn }", "query A($v: Int) { b(x: $v) }", "query A($v: Int!) { b(x: $v) }",
-                "{ a } { nn }", "mutation A { a }", "{ a ", "query A { zzz }"]
+                "{ a } { nn }", "mutation A { a }", "{ a ", "query A { zzz }",
+                "query A { a } query B { nn } query C { a nn }", "query A { a } query B { nn } query C { a nn } query D { nn }",
+                "query A { a } query B { nn } query C { a } query D { nn } query E { a }", "query A { a } mutation B { a } query C { nn }"]
         inputs = docs
         for q in docs:
             for opn in (None, "", "A", "B", "Nope", "a", 0, 1, ("A",), b"A", 1.5):
